@@ -232,9 +232,17 @@ class Chunk:
         # Always partition the subrun spans, also when the chunk does not start / end on a
         # subrun border (e.g. the remainder after a cut in the gap between two subruns):
         # pieces that keep the unsplit spans cannot be concatenated again later.
-        subruns_first_chunk, subruns_second_chunk = _split_runs_in_chunk(self.subruns, t)
-
-        superrun_first_chunk, superrun_second_chunk = _split_runs_in_chunk(self.superrun, t)
+        if t == self.end:
+            # Nothing is cut off: the left piece is the whole chunk and keeps all of its
+            # bookkeeping, including zero-length spans (zero-duration chunks)
+            subruns_first_chunk, subruns_second_chunk = self.subruns, None
+            superrun_first_chunk, superrun_second_chunk = self.superrun, None
+        elif t == self.start:
+            subruns_first_chunk, subruns_second_chunk = None, self.subruns
+            superrun_first_chunk, superrun_second_chunk = None, self.superrun
+        else:
+            subruns_first_chunk, subruns_second_chunk = _split_runs_in_chunk(self.subruns, t)
+            superrun_first_chunk, superrun_second_chunk = _split_runs_in_chunk(self.superrun, t)
         # If the superrun is split and the fragment cover only one run,
         # you need to recover the run_id
         if superrun_first_chunk is None or len(superrun_first_chunk) == 1:
